@@ -385,3 +385,75 @@ struct LabelReferences {
     declaration: Option<TextRange>,
     references: Vec<TextRange>,
 }
+
+#[cfg(feature = "verif-hooks")]
+impl LuaReferenceIndex {
+    pub(crate) fn verif_sizes(&self) -> Vec<(&'static str, usize)> {
+        let nested = |m: &HashMap<FileId, HashSet<LuaSyntaxId>>| -> usize {
+            m.values().map(|s| s.len()).sum::<usize>()
+        };
+        vec![
+            ("file_references", self.file_references.len()),
+            ("index_reference", self.index_reference.len()),
+            (
+                "index_reference.files",
+                self.index_reference.values().map(|m| m.len()).sum(),
+            ),
+            (
+                "index_reference.ids",
+                self.index_reference.values().map(nested).sum(),
+            ),
+            ("global_references", self.global_references.len()),
+            (
+                "global_references.files",
+                self.global_references.values().map(|m| m.len()).sum(),
+            ),
+            (
+                "global_references.ids",
+                self.global_references.values().map(nested).sum(),
+            ),
+            ("string_references", self.string_references.len()),
+            ("type_references", self.type_references.len()),
+            (
+                "type_references.types",
+                self.type_references.values().map(|m| m.len()).sum(),
+            ),
+            ("label_references", self.label_references.len()),
+        ]
+    }
+
+    pub(crate) fn verif_file_refs(&self, file_id: FileId) -> Vec<(&'static str, usize)> {
+        vec![
+            (
+                "file_references",
+                self.file_references.contains_key(&file_id) as usize,
+            ),
+            (
+                "index_reference",
+                self.index_reference
+                    .values()
+                    .filter(|m| m.contains_key(&file_id))
+                    .count(),
+            ),
+            (
+                "global_references",
+                self.global_references
+                    .values()
+                    .filter(|m| m.contains_key(&file_id))
+                    .count(),
+            ),
+            (
+                "string_references",
+                self.string_references.contains_key(&file_id) as usize,
+            ),
+            (
+                "type_references",
+                self.type_references.contains_key(&file_id) as usize,
+            ),
+            (
+                "label_references",
+                self.label_references.contains_key(&file_id) as usize,
+            ),
+        ]
+    }
+}
